@@ -67,6 +67,25 @@ theorem model_minimize_preserves_all (A : Dfa) (hn : 0 < A.trans.length) (h0 : A
     acceptsTid (minimize A) cm w t ↔ acceptsTid A cm w t :=
   minimize_preserves_all A hn h0 htar cm w t
 
+/-- executable form of the hypotheses (evaluated by the driver on every logged input) -/
+def minimizeHyps (A : Dfa) : Bool :=
+  decide (0 < A.trans.length) && !A.isEnd 0 && A.trans.all fun ts => ts.all fun p => decide (p.2 < A.trans.length)
+
+/-- **decision by the minimizer theorem** (executed by the driver on every logged pair): if the
+    logged output is, as data, what the model computes from the logged input, the pair preserves
+    acceptance of every word and does not add states — no exploration, no bound -/
+theorem decided_by_minimizer_theorem (A B : Dfa) (hB : B = minimize A) (hh : minimizeHyps A = true)
+    (cm : Nat → Nat → Bool) (w : List Nat) (t : Nat) :
+    (acceptsTid B cm w t ↔ acceptsTid A cm w t) ∧ B.trans.length ≤ A.trans.length := by
+  simp only [minimizeHyps, Bool.and_eq_true, decide_eq_true_eq, Bool.not_eq_true', List.all_eq_true] at hh
+  obtain ⟨⟨hn, h0⟩, htar⟩ := hh
+  have htar' : ∀ s cc t', (cc, t') ∈ A.outs s → t' < A.trans.length := by
+    intro s cc t' hm
+    obtain ⟨ts, hts, hp⟩ := outs_mem_trans A s (cc, t') hm
+    exact htar ts hts (cc, t') hp
+  subst hB
+  exact ⟨minimize_preserves_all A hn h0 htar' cm w t, minimize_states_le A hn h0⟩
+
 /-- ... and never has more states. -/
 theorem model_minimize_states_le (A : Dfa) (hn : 0 < A.trans.length) (h0 : A.isEnd 0 = false) :
     (minimize A).trans.length ≤ A.trans.length := minimize_states_le A hn h0
